@@ -14,7 +14,7 @@ FREE = [-1, -1]
 def _call(fn, *a, **k):
     try:
         return fn(*a, **k), None
-    except ValueError as e:
+    except Exception as e:
         return None, e
 
 
